@@ -131,15 +131,17 @@ pub fn served_take() -> Vec<([u8; 16], [u8; 16], u16, u16)> {
     std::mem::take(&mut *SERVED.lock().unwrap())
 }
 
-static UNI_SEEN: Mutex<Vec<(u16, u16)>> = Mutex::new(Vec::new());
+#[allow(clippy::type_complexity)]
+static UNI_SEEN: Mutex<Vec<(u16, u16, [u8; 16], u64)>> = Mutex::new(Vec::new());
 
 /// a broadcast frame reached a uni-stream handler: (cluster declared in the frame, cluster the
-/// handler compares with), recorded before the filter
-pub fn uni_seen_push(declared: u16, own: u16) {
-    UNI_SEEN.lock().unwrap().push((declared, own));
+/// handler compares with, author and first version of the change it carries), recorded
+/// before the filter
+pub fn uni_seen_push(declared: u16, own: u16, actor: [u8; 16], version: u64) {
+    UNI_SEEN.lock().unwrap().push((declared, own, actor, version));
 }
 
-pub fn uni_seen_take() -> Vec<(u16, u16)> {
+pub fn uni_seen_take() -> Vec<(u16, u16, [u8; 16], u64)> {
     std::mem::take(&mut *UNI_SEEN.lock().unwrap())
 }
 
